@@ -67,27 +67,46 @@ def workdir(tag):
 
 
 def emit_ir(config="A", files=None, tag=None, extra=(), repo=None):
-    """compile the given repo-relative sources (default: all) to textual IR; returns {relpath: ll-path}"""
+    """compile the given repo-relative sources (default: all) to textual IR; returns {relpath: ll-path}.
+    Within one run (one scratch tree) a tag is compiled once: concurrent obligation workers that need the same program wait on a lock and reuse it."""
+    import fcntl
+    import hashlib
+    import json
     repo = repo or REPO
     tag = tag or ("ir_" + config)
-    d = workdir(tag)
     if files is None:
         srcs = sources(repo, config)
     else:
         srcs = [os.path.join(repo, f) for f in files]
-    procs = []
-    out = {}
-    for s in srcs:
-        rel = os.path.relpath(s, repo)
-        ll = os.path.join(d, rel.replace("/", "_")[:-4] + ".ll")
-        cmd = ["clang++-14", "-I" + os.path.join(repo, "include")] + IRFLAGS + CONFIGS[config] + [HOOK_DEFINE] + list(extra) + [s, "-o", ll]
-        procs.append((rel, ll, subprocess.Popen(cmd, stdout=subprocess.PIPE, stderr=subprocess.PIPE, text=True)))
-    for rel, ll, p in procs:
-        so, se = p.communicate()
-        if p.returncode != 0:
-            raise RuntimeError("clang failed on %s:\n%s" % (rel, se[-2000:]))
-        out[rel] = ll
-    return out
+    key = hashlib.sha1(json.dumps([config, srcs, list(extra), repo]).encode()).hexdigest()
+    os.makedirs(WORK, exist_ok=True)
+    with open(os.path.join(WORK, tag + ".lock"), "w") as lk:
+        fcntl.flock(lk, fcntl.LOCK_EX)
+        d = os.path.join(WORK, tag)
+        marker = os.path.join(d, ".done")
+        if os.path.exists(marker):
+            try:
+                m = json.load(open(marker))
+                if m.get("key") == key and all(os.path.exists(p) for p in m["out"].values()):
+                    return m["out"]
+            except (ValueError, KeyError):
+                pass
+        d = workdir(tag)
+        procs = []
+        out = {}
+        for s in srcs:
+            rel = os.path.relpath(s, repo)
+            ll = os.path.join(d, rel.replace("/", "_")[:-4] + ".ll")
+            cmd = ["clang++-14", "-I" + os.path.join(repo, "include")] + IRFLAGS + CONFIGS[config] + [HOOK_DEFINE] + list(extra) + [s, "-o", ll]
+            procs.append((rel, ll, subprocess.Popen(cmd, stdout=subprocess.PIPE, stderr=subprocess.PIPE, text=True)))
+        for rel, ll, p in procs:
+            so, se = p.communicate()
+            if p.returncode != 0:
+                raise RuntimeError("clang failed on %s:\n%s" % (rel, se[-2000:]))
+            out[rel] = ll
+        with open(marker, "w") as f:
+            json.dump({"key": key, "out": out}, f)
+        return out
 
 
 def load_program(config="A", files=None, tag=None, extra=(), repo=None):
